@@ -210,7 +210,7 @@ fn run() {
             }
         }
         if let Some(b) = bad {
-            r.violation(&format!("reshard:order:S{}:{:?}", c.shards, c.picker), &b, json!({"part":"reshard","case":case_json(c)}));
+            r.violation(&format!("reshard:order:S{}:{:?}", c.shards, c.picker), &b, json!({"part":"grid","case":case_json(c)}));
         }
     }
     // ---- error injection ---------------------------------------------------------------------------
@@ -240,7 +240,7 @@ fn run() {
                 Out::Ok(v) => r.violation(
                     &format!("reshard:error-swallowed:{}", if c.err_at.is_some() { "input-error" } else { "overlong-stream" }),
                     &format!("helper {h} shard {bad_shard} returned Ok({v:?}) although its input stream {}", if c.err_at.is_some() { "yielded an error item" } else { "produced more records than its size hint" }),
-                    json!({"part":"reshard","case":case_json(c)}),
+                    json!({"part":"grid","case":case_json(c)}),
                 ),
                 Out::Err(e) if c.overlong.is_some() && !e.contains("RecordIdOutOfRange") => r.note(format!("overlong stream failed with {e}")),
                 _ => {}
@@ -302,7 +302,7 @@ fn run() {
                     r.violation(
                         "reshard:transport-error-swallowed",
                         &format!("helper {h}: record slot {slot} of the stream from shard {src} to shard {dst} was made undecodable; shard {dst} returned Ok with {what}"),
-                        json!({"part":"reshard","case":case_json(tc),"fault":{"helper":h,"source":src,"dest":dst,"slot":slot}}),
+                        json!({"part":"grid","case":case_json(tc),"fault":{"helper":h,"source":src,"dest":dst,"slot":slot}}),
                     );
                 }
                 _ => r.inc("transport_faults_failed_loudly"),
